@@ -12,18 +12,9 @@ import (
 
 	"verif/core"
 	_ "verif/props/c04"
-	_ "verif/props/c07"
 	_ "verif/props/c09"
-	_ "verif/props/c10"
 	_ "verif/props/c12"
 	_ "verif/props/c13"
-	_ "verif/props/c15"
-	_ "verif/props/c08"
-	_ "verif/props/c11"
-	_ "verif/props/c14"
-	_ "verif/props/c16"
-	_ "verif/props/c19"
-	_ "verif/props/c20"
 	"verif/props/chainprops"
 )
 
